@@ -8,55 +8,7 @@
 (* A clause is <<name, nontrivial, holds>>.  "nontrivial" marks            *)
 (* evaluations whose antecedent was not vacuous (counted in the evidence). *)
 (***************************************************************************)
-EXTENDS AnsiFuncs
-
----------------------------------------------------------------------------
-(***************************************************************************)
-(* Expected results are described by SEGMENTS over the pre-state:          *)
-(*  <<"reg", r, lo, hi>>       characters lo..hi-1 (0-based) of pre[r],    *)
-(*                             with their settings                         *)
-(*  <<"lit", text, "none",0,0>> literal text without settings              *)
-(*  <<"lit", text, "at", r, i>> literal text, each character with the      *)
-(*                             settings of character i (0-based) of pre[r] *)
-(*  <<"txt", text, r, lo>>     literal text, k-th character (1-based) with *)
-(*                             the settings of character lo+k-1 of pre[r]  *)
-(*  <<"txtx", text, r>>        as "txt" from 0, the last character's       *)
-(*                             settings extended over added characters     *)
-(***************************************************************************)
-StyAt0(v, i) == IF i + 1 \in DOMAIN v.s THEN v.s[i+1] ELSE << >>
-
-SegT(seg, pre) ==
-  IF seg[1] = "reg" THEN SubSeq(pre[seg[2]].t, seg[3] + 1, seg[4]) ELSE seg[2]
-
-SegS(seg, pre) ==
-  CASE seg[1] = "reg"  -> SubSeq(pre[seg[2]].s, seg[3] + 1, seg[4])
-    [] seg[1] = "lit"  -> [k \in 1..Len(seg[2]) |->
-                             IF seg[3] = "at" THEN StyAt0(pre[seg[4]], seg[5]) ELSE << >>]
-    [] seg[1] = "txt"  -> [k \in 1..Len(seg[2]) |-> StyAt0(pre[seg[3]], seg[4] + k - 1)]
-    [] seg[1] = "txtx" -> LET v == pre[seg[3]] n == Len(v.s) IN
-                          [k \in 1..Len(seg[2]) |->
-                             IF n = 0 THEN << >> ELSE v.s[IF k > n THEN n ELSE k]]
-
-RECURSIVE ExpT(_, _, _)
-ExpT(segs, pre, i) == IF i > Len(segs) THEN << >> ELSE SegT(segs[i], pre) \o ExpT(segs, pre, i+1)
-RECURSIVE ExpS(_, _, _)
-ExpS(segs, pre, i) == IF i > Len(segs) THEN << >> ELSE SegS(segs[i], pre) \o ExpS(segs, pre, i+1)
-
-TextIs(w, segs, pre) == w.t = ExpT(segs, pre, 1)
-StyIs(w, segs, pre)  == LET s == ExpS(segs, pre, 1) IN
-                        /\ Len(w.s) = Len(s)
-                        /\ \A k \in DOMAIN s : Equiv(w.s[k], s[k])
-\* positions a..b (1-based, inclusive) only
-StyIsOn(w, segs, pre, a, b) ==
-  LET s == ExpS(segs, pre, 1) IN
-  /\ Len(w.s) = Len(s)
-  /\ \A k \in a..b : k \in DOMAIN s => Equiv(w.s[k], s[k])
-
-HasStyle(v) == \E i \in DOMAIN v.s : v.s[i] # << >>
-
-\* result value of an event: the receiver after an in-place call, else the (first) result register
-ResultOf(e, post) == IF e.a.inplace = 1 THEN post[e.r] ELSE post[e.res[1]]
-HasResult(e) == e.out = "ok" /\ (e.a.inplace = 1 \/ Len(e.res) >= 1)
+EXTENDS AnsiText
 
 ---------------------------------------------------------------------------
 \* Clauses every event is subject to (C08 frames, C09 outcomes, C13 payload)
@@ -85,11 +37,6 @@ Common(e, pre, post) ==
   \o Cl("inv.shape", e.upd # << >>, \A i \in DOMAIN e.upd : WellShaped(e.upd[i][2]))
   \o Cl("C13.payload", \E i \in DOMAIN e.upd : e.upd[i][2].k = "A",
         \A i \in DOMAIN e.upd : e.upd[i][2].k = "A" => e.upd[i][2].p = e.upd[i][2].q)
-
-\* result kind follows the receiver kind (C13: an AnsiStr method returns AnsiStr)
-KindC(e, pre, post, want) ==
-  Cl("C13.kind", want = "A",
-     e.out = "ok" => \A i \in DOMAIN e.res : post[e.res[i]].k = want)
 
 RecvKind(e, pre) == pre[e.r].k
 
@@ -468,7 +415,7 @@ OpClauses(e, pre, post) ==
     [] e.op = "pcs"    -> PcsC(e)
     [] e.op = "helper" -> HelperC(e)
     [] e.op = "aset"   -> AsetC(e)
-    [] OTHER -> None
+    [] OTHER -> TextOpClauses(e, pre, post)
 
 Clauses(e, pre, post) == Common(e, pre, post) \o OpClauses(e, pre, post)
 =============================================================================
